@@ -187,6 +187,62 @@ def evaluate(arg):
             out["cnf"] = pm
         except Exception as e:
             out["cnf"] = dict(exception=[type(e).__name__, str(e)[:300], traceback.format_exc()[-2000:]])
+    if "mismatch" in want and geo is not None:
+        # the library's checker on every candidate sequence of the design vs the reference reading
+        try:
+            import sweetpea as sp
+            fa, fr, n_seq, n_valid = [], [], 0, 0
+            lim = opts.get("mismatch_limit", 20000)
+            for seq in model.enumerate_sequences(d, geo, opts.get("space_limit", 150_000)):
+                n_seq += 1
+                if n_seq > lim:
+                    break
+                c = model.classify(d, seq, geo)
+                n_valid += c == model.VALID
+                try:
+                    mm = runner.quiet(sp.sample_mismatch_experiment, block, {f: list(seq[f]) for f in names})
+                except Exception as e:
+                    mm = {"exception": [type(e).__name__, str(e)[:200]]}
+                if c == model.INVALID and not mm and len(fa) < 3:
+                    fa.append({f: list(seq[f]) for f in names})
+                if c == model.VALID and mm and len(fr) < 3:
+                    fr.append([{f: list(seq[f]) for f in names}, {k: str(v)[:200] for k, v in mm.items()}])
+                if c == model.INVALID and not mm:
+                    out.setdefault("mismatch", {}).setdefault("n_false_accept", 0)
+                    out["mismatch"]["n_false_accept"] += 1
+                if c == model.VALID and mm:
+                    out.setdefault("mismatch", {}).setdefault("n_false_reject", 0)
+                    out["mismatch"]["n_false_reject"] += 1
+            mmr = out.setdefault("mismatch", {})
+            mmr.update(n_seq=min(n_seq, lim), n_valid=n_valid, false_accept=fa, false_reject=fr, exhaustive=n_seq <= lim)
+        except model.Unsupported as e:
+            out["mismatch"] = dict(unsupported=str(e))
+        except Exception as e:
+            out["mismatch"] = dict(exception=[type(e).__name__, str(e)[:300], traceback.format_exc()[-2000:]])
+    if "random_metrics" in want:
+        try:
+            from sweetpea._internal.sampling_strategy.random import RandomGen
+            res = runner.quiet(RandomGen.sample, block, opts.get("n", 3000))
+            m = res.metrics
+            out["random_metrics"] = dict(solution_count=m.get("solution_count"), total_rejected=m.get("total_rejected"), n=len(res.samples))
+        except Exception as e:
+            out["random_metrics"] = dict(exception=[type(e).__name__, str(e)[:300]])
+    if "counts" in want:
+        # C09: requested vs returned for several n
+        rec = {}
+        for strat in opts.get("count_strategies", ("IterateSATGen", "RandomGen", "IterateGen")):
+            try:
+                full = runner.synth(block, opts.get("n", 3000), strat)
+                avail = len(full)
+                rows = []
+                for n_req in sorted({0, 1, max(avail - 1, 0), avail, avail + 3}):
+                    got = runner.synth(block, n_req, strat)
+                    keys = [key_of_exp(e, names) for e in got]
+                    rows.append(dict(requested=n_req, returned=len(got), keys=keys if len(keys) <= 400 else None, distinct=len(set(keys))))
+                rec[strat] = dict(available=avail, rows=rows, full_keys=[key_of_exp(e, names) for e in full] if avail <= 3000 else None)
+            except Exception as e:
+                rec[strat] = dict(exception=[type(e).__name__, str(e)[:300]])
+        out["counts"] = rec
     out["secs"] = round(time.time() - t0, 2)
     return out
 
